@@ -1,5 +1,6 @@
 import Sigc.TrkLemmas
 import Sigc.TrkLemmas2
+import Sigc.TrkLemmas3
 /-!
   # C16 — trackable notifications fire exactly once, and copies do not inherit them
 
@@ -349,5 +350,51 @@ example :
     registration ids of all `deliver` events of the run are pairwise distinct. -/
 theorem add_in_round_once (h : History) (dom : h.Domain2 = true) : (delivered (run h).trace).Nodup :=
   (run_inv3 dom).dnodup
+
+/-- **C16.exactly_once_wide.** The exactly-once statement on the wider domain (callbacks remove and add in any mix):
+    with an in-round add counted as no registration, (1) no registration is delivered twice; (2) a delivery of r happens
+    only during a triggering event on a trackable t on which r is (round-aware) present at that moment; (3) when a triggering
+    event on t completes, every registration (round-aware) present on t has been delivered; (4) rounds are bracketed and none
+    is open at the end. -/
+theorem exactly_once_wide (h : History) (dom : h.Domain2 = true) :
+    let tr := (run h).trace
+    (delivered tr).Nodup ∧
+    (∀ pre post r d k, tr = pre ++ Ev.deliver r d k :: post →
+        r ∉ delivered pre ∧ ∃ t, inRound pre = some t ∧ (r, d) ∈ present2 t pre) ∧
+    (∀ pre post t, tr = pre ++ Ev.done t :: post →
+        inRound pre = some t ∧ ∀ x ∈ present2 t pre, x.1 ∈ delivered pre) ∧
+    (∀ pre post t, tr = pre ++ Ev.trig t :: post → inRound pre = none) ∧
+    inRound tr = none := by
+  have inv := W.run_inv dom
+  refine ⟨inv.valid.delivered_nodup, ?_, ?_, ?_, inv.idle⟩
+  · intro pre post r d k e
+    obtain ⟨_, t, h1, h2, h3⟩ := inv.valid.split pre _ post e
+    exact ⟨h3, t, h1, h2⟩
+  · intro pre post t e
+    exact (inv.valid.split pre _ post e).2
+  · intro pre post t e
+    exact (inv.valid.split pre _ post e).2
+
+/-- every `add` of the run, in a round or not, has its own registration id (wider domain) -/
+theorem added_nodup_wide (h : History) (dom : h.Domain2 = true) : (added (run h).trace).Nodup :=
+  (W.run_inv dom).valid.added_nodup
+
+/-- non-vacuity: the first callback adds (data 2) and removes (data 5, the third registration) during the
+    round: the in-round add (id 3) is no registration for `present2` (it is one for `present`), the removed one
+    (id 2) is not delivered; a later add of data 2 (id 4) is delivered in the second round -/
+example :
+    let h : History := ⟨[[.add 2 0, .rem 5], []],
+      [.new 0, .add 0 1 0, .add 0 1 1, .add 0 5 1, .notify 0, .add 0 2 1, .notify 0, .del 0]⟩
+    h.Domain2 = true ∧ h.Domain = false ∧ delivered (run h).trace = [0, 1, 4] ∧
+      added (run h).trace = [0, 1, 2, 3, 4] ∧
+      (run h).trace.take 7 = [.add 0 0 1, .add 1 0 1, .add 2 0 5, .trig 0, .deliver 0 1 0, .add 3 0 2, .rem 0 5] ∧
+      present2 0 ((run h).trace.take 7) = [(0, 1), (1, 1)] ∧
+      present 0 ((run h).trace.take 7) = [(0, 1), (1, 1), (3, 2)] := by
+  decide
+
+/-- on C16's own domain (no in-round add) the round-aware `present2` is `present`, at every prefix of the trace -/
+theorem present2_eq_present_of_domain (h : History) (dom : h.Domain = true) (t : Nat) (pre post : List Ev)
+    (e : (run h).trace = pre ++ post) : present2 t pre = present t pre :=
+  W.present2_eq_present_of_domain dom t pre post e
 
 end Sigc.C16
